@@ -91,6 +91,13 @@ def main():
     deq = U.uniform_dequantize(codes, p)
     back = U.uniform_quantize(np.asarray(deq, np.float32), p)
     obs.append({"kind": "rt", "codes": codes.flatten().tolist(), "back": [int(b) for b in back.flatten()], "lo": lo, "hi": hi})
+    # the same with parameters as they are STORED in a .tflite / returned by the interpreter: flattened 1-D arrays with a
+    # quantized dimension, applied to tensors of rank 2 and 3 (the rank fix-up path)
+    for shape in ((1, -1), (1, 1, -1)):
+      p1 = Q.UniformQuantParams(num_bits=bits, quantized_dimension=0, scale=np.asarray(sc).flatten(), zero_point=np.asarray(zp).flatten(), symmetric=sym)
+      c2 = codes.reshape(shape)
+      back1 = U.uniform_quantize(np.asarray(U.uniform_dequantize(c2, p1), np.float32), p1)
+      obs.append({"kind": "rt", "codes": c2.flatten().tolist(), "back": [int(b) for b in back1.flatten()], "lo": lo, "hi": hi})
     xs = np.linspace(float(F(v["mn"])) - 1.0, float(F(v["mx"])) + 1.0, 97).astype(np.float32).reshape(1, -1)
     qs = U.uniform_quantize(xs, p)
     obs.append({"kind": "mono", "qs": [int(b) for b in qs.flatten()], "lo": lo, "hi": hi})
